@@ -1,5 +1,5 @@
 import McpModel.Base.Proto
-import McpModel.Bearer.Monitor
+import McpModel.Bearer.Session
 /-!
 Driver for E10 (C14).  One record = one request through the real `RequireBearerToken` closure.
 
@@ -20,6 +20,16 @@ observation:
    that were not sent | -> body=<response body>`
 The final handler of the harness answers 299 with body "inner"; between two middlewares sits a probe
 that only records what it finds in the request context.
+
+Sessions (Session.lean), multi-record cases:
+  `reset` | `mw op= rm= rs= am= sk= nh=<handlers that exist>`  a value RequireBearerToken(verifier, opts) (several `mw`
+    records: several values side by side, numbered from 0; nh is read from the first)
+  | `wrap hd=<j> mv=<v>`  the next wrapper mw_v(h_j) (numbered in creation order; mv defaults to 0)
+  | `sreq w=<wrapper> g=<group> at=<entry ns> cx=<ns at which the request's context is cancelled | -> h= ve= … now=`
+    one request through wrapper w; the option keys repeat the `mw` record and are NOT read (the value's are used);
+    `me= pa= dc=` (method, path and query, decoy headers) are not read either: the model's request has no such
+    parts.  Observation: that of a `req` with one middleware (info: L0 = the info the verifier built for THIS request)
+    followed by `hr=<per handler: runs for this request>`.
 
 This file is the STRING LAYER only: token parser (`parseReq`, `parseObs`, incl. reading a
 `WWW-Authenticate` value into its auth-params), renderer (`renderObs`) and clause texts (`Clause.text`).
@@ -286,24 +296,92 @@ def selfCheck (m : Obs) : Option String :=
   if parseObs (renderObs m) == some m then none
   else some "LIBDISC render/parse: the model's observation does not survive the string layer"
 
-def engine : Engine Unit where
-  init := ()
-  step _ toks impl :=
+/-! ### Sessions: one middleware value, applications, histories of requests (Session.lean) -/
+
+/-- Driver state of a case: the middleware value of the `mw` record (if any) and the number of handlers. -/
+structure DState where
+  world : World String := { vals := [], wrappers := [] }
+  nh : Nat := 0
+
+def SClause.text (impl : String) : SClause → String
+  | .malformedRuns => s!"bad-observation: {impl}"
+  | .strayHandler made j => s!"admit_iff: the request went through the wrapper made for handler {made}, but handler {j} ran: a handler wrapped by the middleware runs only for requests sent to ITS wrapper"
+  | .base c => Clause.text 1 impl c ++ " [one middleware value: earlier and concurrent requests and other wrapped handlers must not matter]"
+
+def renderSObs (o : SObs) : String :=
+  renderObs o.obs ++ " hr=" ++ csv (o.hr.map toString)
+
+def parseSObs (impl : String) : Option SObs := do
+  let o ← parseObs impl
+  let hr ← (splitObs (← kv (words impl) "hr")).mapM (·.toNat?)
+  return { obs := o, hr := hr }
+
+def stepSreq (st : DState) (toks : List String) (impl : String) : Proto.Verdict :=
+    let wd := st.world
+    let parsed : Option (Nat × Req) := do
+      let w ← (← kv toks "w").toNat?
+      let (v, made) ← wd.wrappers[w]?
+      let opts ← wd.vals[v]?
+      let at_ ← (← kv toks "at").toInt?
+      let h ← (← kv toks "h") |> unxList
+      let sc ← parseScript toks "" at_
+      let sc := sc.withCancel at_ ((kv toks "cx").bind (·.toInt?))
+      return (made, Req.ofSession opts (h.headD "").toList sc)
+    match parsed with
+    | none => { model := "bad-op" }
+    | some (made, r) =>
+      match sessObsOf st.nh made r with
+      | none => { model := "nothing-written", violated := some "LIBDISC the model writes no response" }
+      | some m =>
+        let viol : Option String :=
+          match parseSObs impl with
+          | none => some s!"bad-observation: {impl}"
+          | some o => (sessMonitor st.nh made r o).map (SClause.text impl)
+        let self : Option String :=
+          if parseSObs (renderSObs m) == some m then none
+          else some "LIBDISC render/parse: the model's observation does not survive the string layer"
+        { model := renderSObs m, violated := viol <|> self }
+
+def engine : Engine DState where
+  init := {}
+  step st toks impl :=
     match toks with
-    | ["reset"] => ((), { model := "ok" })
+    | ["reset"] => ({}, { model := "ok" })
+    | "mw" :: rest =>
+      let parsed : Option (Option (Opts String) × Nat) := do
+        let op ← kv rest "op"
+        let rm ← (← kv rest "rm") |> unx
+        let rs ← (← kv rest "rs") |> unxList
+        let am ← kv rest "am"
+        let sk ← (← kv rest "sk").toInt?
+        let nh ← (← kv rest "nh").toNat?
+        return (if op == "n" then none else some { rm := rm, scopes := rs, allowMissing := am == "1", skew := sk }, nh)
+      match parsed with
+      | some (opts, nh) =>
+        ({ world := (st.world.step (α := Tag) (.make opts)).1, nh := if st.world.vals.isEmpty then nh else st.nh }, { model := "ok" })
+      | none => (st, { model := "bad-op" })
+    | "wrap" :: rest =>
+      let v := ((kv rest "mv").bind (·.toNat?)).getD 0
+      match (kv rest "hd").bind (·.toNat?) with
+      | some j =>
+        if j < st.nh ∧ v < st.world.vals.length then
+          ({ st with world := (st.world.step (α := Tag) (.wrap v j)).1 }, { model := "ok" })
+        else (st, { model := "bad-op" })
+      | none => (st, { model := "bad-op" })
+    | "sreq" :: rest => (st, stepSreq st rest impl)
     | "req" :: rest =>
       match parseReq rest with
-      | none => ((), { model := "bad-op" })
+      | none => (st, { model := "bad-op" })
       | some r =>
         match obsOf r with
-        | none => ((), { model := "nothing-written", violated := some "LIBDISC the model writes no response" })
+        | none => (st, { model := "nothing-written", violated := some "LIBDISC the model writes no response" })
         | some m =>
           let viol : Option String :=
             match parseObs impl with
             | none => some s!"bad-observation: {impl}"
             | some o => (monitor r o).map (Clause.text r.layers.length impl)
-          ((), { model := renderObs m, violated := viol <|> selfCheck m })
-    | _ => ((), { model := "bad-op" })
+          (st, { model := renderObs m, violated := viol <|> selfCheck m })
+    | _ => (st, { model := "bad-op" })
 
 end Bearer
 
